@@ -487,12 +487,21 @@ def run(ctx):
         if only:
             c, r = only[0]
             ctx.broken("correspondence:" + name, "%d program(s) differ where the reference semantics is met, e.g. %s on\n%s" % (len(only), r, c["src"]))
+    coqchk = None
+    if not ctx.quick() and not getattr(ctx, "replay_path", None):
+        # independent re-check of the compiled proofs by the standalone checker
+        pr = ctx.sh(["coqchk", "-silent", "-o", "-Q", ".", "SV", "SV.C01.Properties"], cwd=ctx.coqdir, timeout=900)
+        out = pr.stdout + pr.stderr
+        coqchk = "ok" if pr.returncode == 0 and "Axioms: <none>" in out else "rc=%s %s" % (pr.returncode, out[-1500:])
+        if coqchk != "ok":
+            ctx.broken("coqchk:C01/Properties.vo", coqchk)
     nontrivial = sum(1 for (c, d), row in zip(items, rows) if row[0] == "ok")
     cov = {
         "evaluations": len(cases), "distinct_nontrivial": nontrivial,
         "rule": "grammar-based generator (depth <= 6), 16 option combinations, 50% restricted to the proved fragment; each runnable program is compared four ways; 'distinct_nontrivial' counts programs on which the real pipeline and the reference evaluator were both run to completion and agree",
         "distribution": {"classes": dist, "features": feats, "checks": tally, "reference_unsupported": unsup_tags},
         "samples": [{"src": c["src"], "opts": c["opts"], "results": row} for (c, d), row in list(zip(items, rows))[:3]],
+        "coqchk": coqchk,
     }
     return ctx.finish(LEVEL, cov, assumptions=[
         "Ref.v is a reading of doc/spec.md; comprehension variables are fresh per evaluation of the comprehension, closures capture cells",
@@ -776,6 +785,134 @@ def f():
         r.append([lambda: x for x in [i]])
     return [g[0]() for g in r]
 trace(f())
+"""),
+    ("augmented-assignment-in-place", ALLOFF, """
+def f():
+    l = [1]
+    m = l
+    m += [2]
+    t = (1,)
+    u = t
+    u += (2,)
+    n = [0]
+    k = n
+    k = k + [1]
+    return (l, m, t, u, n, k)
+trace(f())
+x = [[1], [2]]
+def g():
+    x[0] += [5]
+    y = x[1]
+    y += x[0]
+    return (x, y)
+trace(g())
+"""),
+    ("evaluation-order-of-displays-index-and-assignment", ALLOFF, """
+def t(v):
+    trace("e", v)
+    return v
+def f():
+    l = [0, 0, 0]
+    l[t(1)] = t(2)
+    d = {t("a"): t(1), t("b"): t(2)}
+    x = (t(1), [t(2), t(3)], {t(4): t(5)})
+    y = t([1, 2, 3, 4])[t(1):t(3)]
+    z = t(l)[t(0)]
+    a, b = t(1), t(2)
+    c = t(1) if t(0) else t(2)
+    e = t(1) < t(2)
+    g = t(3) not in t([3])
+    h = -t(1) + t(2) * t(3)
+    return (l, d, x, y, z, a, b, c, e, g, h)
+trace(f())
+"""),
+    ("loop-variables-and-iteration", ALLON, """
+def f():
+    out = []
+    for i in [1, 2, 3]:
+        pass
+    out.append(i)
+    for k in {"a": 1, "b": 2}:
+        out.append(k)
+    for i, (a, b) in [(0, (1, 2)), (1, (3, 4))]:
+        out.append(i + a + b)
+    for c in (1, 2):
+        for c in [c * 10]:
+            out.append(c)
+        out.append(c)
+    n = 0
+    for x in range(5):
+        if x % 2:
+            continue
+        n += x
+    out.append(n)
+    return out
+trace(f())
+for g in [1, 2]:
+    h = g * 2
+trace(g, h)
+def m():
+    d = {"a": 1}
+    for k in d:
+        d["b"] = 2
+    return d
+trace(m())
+"""),
+    ("closures-three-levels-and-defaults-in-loops", ALLOFF, """
+def outer(a):
+    def middle(b):
+        def inner(c):
+            return (a, b, c)
+        return inner
+    return middle
+trace(outer(1)(2)(3))
+def mk():
+    fs = [lambda y=i: y for i in range(3)]
+    gs = []
+    for j in range(3):
+        def g(k=j):
+            return k + j
+        gs.append(g)
+    return [f() for f in fs] + [g() for g in gs]
+trace(mk())
+def acc():
+    total = [0]
+    def add(n):
+        total[0] += n
+        return total[0]
+    return add
+a = acc()
+trace(a(1), a(2), a(3))
+def rec():
+    def fact(n):
+        return 1 if n <= 1 else n * helper(n - 1)
+    def helper(n):
+        return n
+    return fact(4)
+trace(rec())
+"""),
+    ("varargs-kwargs-binding", ALLOFF, """
+def f(a, b=2, *args, c, d=4, **kw):
+    return (a, b, args, c, d, kw)
+trace(f(1, c=3))
+trace(f(1, 2, 3, 4, c=5, e=6))
+trace(f(*[1, 2, 3], **{"c": 4, "z": 5}))
+trace(f(1, d=0, c=9, b=8))
+def g(*a, **k):
+    return (a, k)
+trace(g(), g(1), g(x=1), g(1, 2, x=3, y=4))
+trace(f(1))
+"""),
+    ("string-list-operations-with-constants", ALLOFF, """
+def f(s, l):
+    trace("ab" * 2, 2 * "ab", [1] * 2, (1, 2) * 2, s * 0, l * -1)
+    trace("abc"[1], "abc"[-1], l[-1], l[0:2], "abcdef"[::2], "abcdef"[::-1], l[::-1])
+    trace("a" < "b", [1, 2] < [1, 3], (1,) < (1, 0), "b" in "abc", 2 in l, "x" not in "abc")
+    trace(len(s), len(l), type(s), type(l), bool(s), bool([]), str(12), str(None))
+    trace(sorted([3, 1, 2]), sorted(["b", "a"]), list((1, 2)), tuple([1, 2]), list(range(3)), range(2, 8, 3))
+f("xy", [1, 2, 3])
+trace(7 // 2, -7 // 2, 7 % -2, -7 % 2, 1 << 10, -8 >> 1, 5 & 3, 5 | 3, 5 ^ 3, ~5)
+trace(10000000000000000000000 * 10000000000000000000000, -(1 << 70) // 3)
 """),
     ("dict-displays-and-comprehensions", ALLOFF, """
 def f():
